@@ -137,6 +137,28 @@ func (s Schema) GetFormatter() (Formatter, bool) {
 	return s, true
 }
 
+// isRecursive reports whether the schema reaches itself through $ref and
+// array items (its string parser would be inlined without end).
+func (s Schema) isRecursive() bool {
+	onPath := map[*SchemaComponent]bool{}
+	var walk func(Schema) bool
+	walk = func(s Schema) bool {
+		if s.Ref != nil {
+			if onPath[s.Ref] {
+				return true
+			}
+			onPath[s.Ref] = true
+			defer delete(onPath, s.Ref)
+			return walk(s.Ref.Schema)
+		}
+		if sl, ok := s.Type.(SliceType); ok {
+			return walk(sl.Items)
+		}
+		return false
+	}
+	return walk(s)
+}
+
 func (s Schema) Base() Schema {
 	if s.Ref != nil {
 		return s.Ref.Schema.Base()
